@@ -88,6 +88,17 @@ CHECKS = {
          "basic_render run on real objects for every ordered member list x sorted / unsorted x rfunc / repr in every graph state over "
          "the pool; text parsed back; TLC compares with EGRender!PlainLines (which is built on EGQueries!Nb).",
          "TLC-evaluated specification + trace validation (parsed output = operator)"),
+ "C17": ("model_checking", "6 C17",
+         "TLC enumerates every interleaving of the seven semi-singleton operations over four classes (two sharing a metaclass object, a "
+         "subclass, one with a custom key function) and an argument menu with equal-hash / equal-value / permuted-keyword cases, checks "
+         "the isolation, injectivity and no-creation properties on the model, and every (state, call) is replayed with its path on "
+         "fresh real classes; TLC follows each trace with hidden state (returned identity, exact class, __init__ runs / arguments).",
+         "TLC model checking + trace validation with hidden state"),
+ "C18": ("model_checking", "6 C18",
+         "TLC enumerates every interleaving of constructions and targeted / global clears over a parent, its subclass and an unrelated "
+         "class, checks OnePerClass / InitOnce / SameUntilCleared / ClearIsTargeted, and every (state, call) is replayed with its path "
+         "on fresh real classes and followed by TLC with hidden state.",
+         "TLC model checking + trace validation with hidden state"),
 }
 
 NOT_YET = {}
